@@ -42,13 +42,19 @@ DEP = {
 CAUSE = {"nt_setitem": "nontensor-promotion", "nt_set_at": "nontensor-promotion", "setitem_row": "nontensor-promotion",
          "nt_same": "nontensor-promotion",
          "make_memmap": "make_memmap", "make_memmap_from_tensor": "make_memmap",
-         "memmap_under_lock": "memmap_-on-locked", "mm_sub_unlock_edit": "memmap-subtree-unlock",
-         "sub_unlock": "memmap-subtree-unlock",
+         "memmap_under_lock": "memmap_-on-locked",
          "names": "metadata-under-lock", "rename_": "metadata-under-lock", "batch_size": "metadata-under-lock",
          "member_relock_edit": "lazy-implicit-lock-cycle", "lazy_materialised": "lazy-materialised",
          "mutate_result": "result-mutation", "isleaf_reuse": "address-reuse"}
 
 UNLOCKING_OPS = {"relock", "relock_edit", "with_unlock", "member_relock_edit", "mm_sub_unlock_edit", "sub_unlock"}
+# D7 is repaired (memmap_ locks through the lock graph): an unlock_ of a nested node / member of a memmap_-locked tree is REFUSED,
+# like in a lock_-locked tree.  A stale read after a history in which such an unlock was ACCEPTED has no recorded cause any more
+# (it is reported).  What is left of the old D62 are two defects of the lock layer that D7's repair does not touch:
+#   D68  a REFUSED unlock_ has already cleared _is_memmap / _is_shared on the subtree it tried to unlock (_propagate_unlock), and
+#        the re-lock does not restore them: a lazy stack whose members now disagree raises in is_memmap()
+#   D69  make_memmap*(nested key) under lock attaches new nested tensordicts that are not locked / not registered under the
+#        locked tree: they are written structurally, or unlocked alone, below memoised results
 
 MATERIALISING = {"flatten_keys", "unflatten_keys", "detach", "_add_batch_dim", "_remove_batch_dim", "_maybe_remove_batch_dim",
                  "_items_list", "_values_list"}
@@ -156,9 +162,11 @@ class Runner:
         self.mask = prog.get("fronts")   # None = all
         self.model_log = [] if collect_model_log else None
         self.counter = 0
+        self.refused_unlocks = 0   # unlocking ops of this history that raised the lock error
+        self.attached = set()      # paths of nested tensordicts attached under lock by make_memmap*(nested key)
 
     # ---------------------------------------------------------------- attribution
-    def note_events(self, before, after, opkind):
+    def note_events(self, before, after, opkind, raised=False):
         bn, an = before["nodes"], after["nodes"]
         # 1. caches that were erased / replaced during the op forget their events
         for p, a in an.items():
@@ -194,7 +202,8 @@ class Runner:
                 # the change lies in the subtree of node q, and q's cache survived the op
                 if is_prefix(q, p) and bn.get(q) is not None and bn[q]["id"] == an[q]["id"] and an[q]["locked"] \
                         and bn[q]["cache_id"] is not None and an[q]["cache_id"] == bn[q]["cache_id"]:
-                    self.events.setdefault(q, []).append({"effect": eff, "at": p, "op": opkind, "target": getattr(self, "last_target", None)})
+                    self.events.setdefault(q, []).append({"effect": eff, "at": p, "op": opkind, "target": getattr(self, "last_target", None),
+                                                          "raised": raised})
         return evs
 
     def explain(self, nodepath, methods):
@@ -215,6 +224,14 @@ class Runner:
                 elif e["effect"] in DEP.get(m, {"structure", "rebind", "meta", "flags"}):
                     return e
         return None
+
+    def attached_above(self, at):
+        """the (outermost) nested tensordict attached under lock by make_memmap*(nested key) at or above path [at], or None"""
+        best = None
+        for a in self.attached:
+            if is_prefix(a, at) and (best is None or len(a) < len(best)):
+                best = a
+        return best
 
     def registered_under(self, at, upper):
         """is the deepest node at or above path [at] (strictly below [upper]) registered as locked under the node at [upper]?"""
@@ -256,14 +273,14 @@ class Runner:
                     e = self.explain(qs, ms)
                     if e is not None:
                         break
-        if e is None:
-            # D7/D62 leave a STATE inconsistency behind (a member that was unlocked alone lost _is_memmap): a lazy stack whose
-            # members disagree on the flag raises in is_memmap() as soon as a fresh computation runs — not a memoisation matter
+        if e is None and self.refused_unlocks:
+            # D68: a refused unlock_ of a member cleared _is_memmap on that member only: a lazy stack whose members disagree on
+            # the flag raises in is_memmap() as soon as a fresh computation runs
             try:
                 here = node_at(self.td, tuple(k for k in nodepath.split("/") if k))
                 for q, m in walk_nodes(here):
                     if is_lazy(m) and len({bool(x.__dict__.get("_is_memmap")) for x in m.tensordicts}) > 1:
-                        e = {"effect": "flags", "at": nodepath, "op": "mm_sub_unlock_edit"}
+                        e = {"effect": "flags", "at": nodepath, "op": "refused-unlock", "raised": True}
                         break
             except Exception:  # noqa: BLE001
                 pass
@@ -277,14 +294,15 @@ class Runner:
                 cause = "lazy-own-names-setter"     # the lazy stack's own setter carries @erase_cache: not a recorded defect
             elif cause == "metadata-under-lock" and "names" in methods and e["at"] != nodepath:
                 cause = "lazy-member-names"
-            if e["effect"] == "flags" or (self.prog["spec"].get("lock") == "memmap_" and cause == "lazy-implicit-lock-cycle"):
-                # _is_memmap / _is_shared disagreeing inside a tree, members of a memmap_-locked tree unlocking alone: the lock layer (D7)
-                cause = "memmap-subtree-unlock"
-            if e.get("at", "") != nodepath and is_prefix(nodepath, e.get("at", "")) and not self.registered_under(e.get("at", ""), nodepath):
-                # the lock graph is incomplete (D7 family, owned by C05): the node that was written is not registered as locked
-                # under the node that reads — memmap_ builds no graph, and nested tensordicts attached under lock (make_memmap
-                # with a nested key) are not registered either — so its invalidation / its lock cannot reach that far
-                cause = "memmap-subtree-unlock"
+            if e["effect"] == "flags" and e.get("raised") and (e["op"] in UNLOCKING_OPS or e["op"] == "refused-unlock"):
+                # _is_memmap / _is_shared changed under lock by an unlock_ that was REFUSED (D68); the same change left by an
+                # unlock_ that was accepted inside a locked tree has no recorded cause
+                cause = "refused-unlock-clears-memmap-flag"
+            att = self.attached_above(e.get("at", ""))
+            if att is not None and att != nodepath and is_prefix(nodepath, att) and not self.registered_under(att, nodepath):
+                # D69: the change lies at or below a nested tensordict that make_memmap*(nested key) attached under lock, and that
+                # tensordict is not registered as locked under the node that reads: its lock / its invalidation cannot reach that far
+                cause = "nested-node-attached-under-lock"
             sig = {"cause": cause, "effect": e["effect"], "explained": True}
         else:
             sig = {"cause": "none", "explained": False, "methods": ",".join(methods), "label": label}
@@ -472,6 +490,8 @@ class Runner:
             if is_lazy(n):
                 return "skip"
             newkey = f"mm{self.counter}" if op.get("which", 0) % 2 == 0 else (f"mn{self.counter}", "x")
+            if isinstance(newkey, tuple) and n.is_locked:
+                self.attached.add("/".join(p + (newkey[0],)))   # recorded before the call: a call that fails half way may have attached it
             if k == "make_memmap":
                 t = n.make_memmap(newkey, shape=torch.Size(list(n.batch_size) + [2]), dtype=torch.int64)
                 t.fill_(v)
@@ -603,10 +623,17 @@ class Runner:
                 except Exception as e:  # noqa: BLE001
                     out = "raise:" + exc_enum(e)
                 after = snapshot(self.td)
-                evs = self.note_events(before, after, op["op"])
-                if out.startswith("raise") and evs and op["op"] not in ("relock_edit", "with_unlock", "mm_sub_unlock_edit", "member_relock_edit"):
-                    pass  # a raising call that changed something is C05's business; events are still recorded
+                if op["op"] in UNLOCKING_OPS and out == "raise:LockError":
+                    self.refused_unlocks += 1
+                self.attached = {a for a in self.attached if a in after["nodes"]}
+                evs = self.note_events(before, after, op["op"], raised=out.startswith("raise"))
+                # a raising call that changed something is C05's business; the events are still recorded (with the fact that it raised)
                 self.steps.append({"op": op["op"], "out": out, "events": sorted({e for e, _ in evs})})
+                want = (self.prog.get("expect") or {}).get(str(i))
+                if want is not None and out != want:
+                    # a preset history states what the lock layer must answer (the soundness theorem relies on it: Good.g_pc)
+                    self.fail.append(("expect:" + op["op"], i, {"outcome": out, "expected": want, "node": "", "methods": []},
+                                      {"cause": "none", "explained": False, "label": "preset-outcome", "op": op["op"], "outcome": out}))
                 self.step_observe(i)
         finally:
             HOOK.on = False
